@@ -438,6 +438,36 @@ pub fn run(ctx: &Ctx) {
             check_after(c, earlier, st)
         },
     );
+    // every entry of the RFC 7541 static table, as a fully indexed field and as an indexed name with a literal value
+    ctx.run_indexed("static-table-entries", "all 61 entries of the RFC 7541 Appendix A static table x {fully indexed field, indexed name + literal value} in a request (regular headers, request pseudo-headers) or a response (:status entries, regular headers); oracle: the RFC table; non-trivial: every case", true, 61 * 2 * 2, |i, st| {
+        let entry = (i % 61) as usize;
+        let literal_value = (i / 61) % 2 == 1;
+        let request = (i / 122) % 2 == 0;
+        let (name, value) = h2::STATIC_TABLE[entry];
+        if name == ":status" && request || (name.starts_with(':') && name != ":status" && !request) {
+            return;
+        }
+        st.evals += 1;
+        st.nontrivial(&(entry, literal_value, request));
+        let f = |n: &str, v: &str, repr| Field { name: n.into(), value: v.as_bytes().to_vec(), repr, name_indexed: true, huffman_name: false, huffman_value: false };
+        let the_value = if literal_value { "v1" } else { value };
+        let mut fields: Vec<Field> = if request { vec![f(":method", "GET", Repr::PreferIndexed), f(":path", "/", Repr::PreferIndexed)] } else { vec![f(":status", "200", Repr::PreferIndexed)] };
+        if name.starts_with(':') {
+            // replace the pseudo-header of the same name by this entry
+            fields.retain(|x| x.name != name);
+            let v = if literal_value { match name { ":method" => "PUT", ":path" => "/v1", ":status" => "201", ":scheme" => "ftp", _ => "h.test" } } else { value };
+            fields.insert(0, f(name, v, Repr::PreferIndexed));
+            if request && !fields.iter().any(|x| x.name == ":method") {
+                fields.push(f(":method", "GET", Repr::PreferIndexed));
+            }
+        } else {
+            fields.push(f(name, the_value, if literal_value { Repr::LiteralNotIndexed } else { Repr::PreferIndexed }));
+        }
+        let c = H2Case { request, block: Block { size_updates: vec![], fields }, framing: h2::HeadersFraming { stream: 1, end_stream: true, pad: None, priority: None, splits: vec![], reserved_bit: false }, pre: vec![], body: None, hostile_tail: vec![] };
+        if let Err(fl) = check(&c, st) {
+            st.fail(Fail::new(format!("static-entry-{}:{}", entry + 1, fl.what), fl.detail), json!({"entry": entry + 1, "name": name, "literal_value": literal_value, "request": request}));
+        }
+    });
     // every split point of small blocks
     let n = ctx.tier.pick(300, 4000);
     ctx.run_prop(
